@@ -4,8 +4,8 @@ NEXT FreeNext
 CONSTANTS
   N = 2
   V = 3
-  L = 2
-  K1 = 2
+  L = 1
+  K1 = 1
   K2 = 2
   SosIn = FALSE
   Depth = 0
